@@ -277,6 +277,28 @@ func forEachCorpusText(c *core.Ctx, opt corpusOpt, f func(family, text string) b
 		}
 		bounds = append(bounds, fmt.Sprintf("all %d^4 quadruples of representative infix operators x the 14 groupings of five operands", len(reps)))
 	}
+	// map literals with repeated keys (the printer keeps the written order)
+	for _, t := range []string{`m = {1:"a", 2:"b", 1:"c"}`, "{a:1, b:2, a:3, c:4}", `{"k":1, "j":2, "k":3}`, "{1:1, 1:2}", "{1.5:1, 2:2, 1.5:3}", "{[1]:1, 2:2, [1]:3}", "{true:1, false:2, true:3}",
+		"{nil:1, 2:2, nil:3}", "{1:1, 2:2, 3:3, 4:4, 5:5, 1:6, 2:7}", "f({1:1, 1:2, 3:3})", "{1:{2:1, 2:2}, 1:{}}"} {
+		emit("dupkeys", t)
+	}
+	// long chains whose leftmost operand is a signed / prefixed operand, under an enclosing operator (compact mode
+	// decides about separators from the first byte of the operand)
+	for _, n := range []int{1, 10, 63, 64, 65, 100, 300, 1000} {
+		for _, link := range []string{"*b", ".b", "[0]", "()", "+b", " && b", "(1)"} {
+			for _, head := range []string{"y = x - -a", "y = x + +a", "x - -a", "f(x - -a", "x - !a", "y = x - --a", "[x - -a", "x -\n-a"} {
+				t := head + strings.Repeat(link, n)
+				switch {
+				case strings.HasPrefix(head, "f("):
+					t += ")"
+				case strings.HasPrefix(head, "["):
+					t += "]"
+				}
+				emit("chains", t)
+			}
+		}
+	}
+	bounds = append(bounds, "repeated-key map literals; 8 signed-operand heads x 7 chain links x lengths 1..1000")
 	// deeply nested blocks and expressions (counters / indentation of the printer)
 	for _, depth := range []int{10, 100, 254, 255, 256, 257, 300, 1000} {
 		for _, form := range [][2]string{{"if a { ", " }"}, {"func() { ", " }"}, {"for a { ", " }"}, {"x => { ", " }"}, {"if a { 1 } else { ", " }"}, {"(", ")"}, {"[", "]"}, {"f(", ")"}, {"{1: ", "}"}, {"-", ""}} {
